@@ -77,6 +77,9 @@ type e2Machine struct {
 	nreader  int
 	nreset   int
 	nforeign int
+	nghost   int
+	nusedid  int
+	ghosted  map[int]bool
 	ntxfail  int
 	nreopen  int
 	patched  []patchDone // REST patches answered with success (schedule scenarios)
@@ -289,6 +292,21 @@ func (m *e2Machine) Enabled() []pt.Action {
 				as = append(as, pt.Action{Op: "reset", R: 0, T: coll})
 			}
 		}
+		if m.nghost < 1 {
+			// a client whose collection was reset is no longer registered: what it sends next, with or without registering
+			// again somewhere else
+			for _, c := range m.cls {
+				if !m.dead[c.idx] || m.ghosted[c.idx] {
+					continue
+				}
+				for _, k := range m.p.Keys {
+					if _, ok := c.dts[k]; ok {
+						as = append(as, pt.Action{Op: "ghost", R: c.idx, T: k, K: "stay"}, pt.Action{Op: "ghost", R: c.idx, T: k, K: "rejoin"})
+						break
+					}
+				}
+			}
+		}
 		if m.nforeign < 2 {
 			for _, c := range m.cls {
 				if m.dead[c.idx] {
@@ -303,6 +321,20 @@ func (m *e2Machine) Enabled() []pt.Action {
 					for _, bits := range []int{0, 1, 2, 3} {
 						as = append(as, pt.Action{Op: "foreign", R: c.idx, T: k, K: "duid", P: bits})
 					}
+				}
+			}
+		}
+	}
+	if m.oracles["entry"] && m.nusedid < 1 {
+		// an entry request for a key nobody uses that carries the id of a stored datatype (ids are drawn at random by the
+		// clients: nothing but the server keeps two datatypes from getting the same one)
+		if len(m.readStore()) > 0 {
+			for _, c := range m.cls {
+				if m.dead[c.idx] {
+					continue
+				}
+				for _, mode := range []string{"create", "subscribe", "soc"} {
+					as = append(as, pt.Action{Op: "usedid", R: c.idx, T: "kfresh", K: mode})
 				}
 			}
 		}
@@ -481,7 +513,7 @@ func (m *e2Machine) Apply(a pt.Action) (v *pt.Violation) {
 		}
 		before := map[string]string{}
 		for _, coll := range m.p.Colls {
-			if coll != actor {
+			if coll != actor && a.Op != "ghost" { // a ghost's registration in the other collection is judged where it is made
 				before[coll] = m.projection(coll)
 			}
 		}
@@ -524,6 +556,16 @@ func (m *e2Machine) Apply(a pt.Action) (v *pt.Violation) {
 	case "foreign":
 		m.nforeign++
 		return m.foreignRequest(c, a)
+	case "usedid":
+		m.nusedid++
+		return m.usedIDRequest(c, a)
+	case "ghost":
+		m.nghost++
+		if m.ghosted == nil {
+			m.ghosted = map[int]bool{}
+		}
+		m.ghosted[c.idx] = true
+		return m.ghostRequest(c, a)
 	case "ropull":
 		m.nreader++
 		if v := m.readOnlyPull(c, a); v != nil {
@@ -1487,6 +1529,127 @@ func (m *e2Machine) foreignRequest(c *e2client, a pt.Action) *pt.Violation {
 	}
 	if a.K == "collection" && err == nil {
 		return viol("C17:foreign-collection-accepted", "%s: a request naming collection %q by a client registered in %q was not refused", a, other, c.coll)
+	}
+	return nil
+}
+
+// usedIDRequest sends, in the name of client c, the entry request the SDK builds for a new datatype of key a.T (mode a.K),
+// except that it carries the id of a datatype stored under another key of the same collection: it must be refused, and
+// nothing stored may change (the datatype that owns the id keeps its key, its log and its clients).
+func (m *e2Machine) usedIDRequest(c *e2client, a pt.Action) *pt.Violation {
+	var colNum int32 = -1
+	for _, cd := range m.sys.DB.Docs(schema.CollectionNameCollections) {
+		if n, _ := getS(cd, "_id"); n == c.coll {
+			colNum, _ = getV(cd, "num").(int32)
+		}
+	}
+	var victim *storedDT
+	for _, s := range m.readStore() {
+		if s.colNum == colNum && s.key != a.T && (victim == nil || s.key < victim.key) {
+			victim = s
+		}
+	}
+	if victim == nil {
+		m.last = "usedid: nothing to aim at"
+		return nil
+	}
+	var bits uint32 = map[string]uint32{"create": 0x01, "subscribe": 0x02, "soc": 0x03}[a.K]
+	r := newReplica(9, typeOf(c.typ), bits&1 != 0, 0)
+	pack := r.dt.CreatePushPullPack()
+	pack.Key, pack.DUID, pack.Option = a.T, victim.duid, bits
+	for _, op := range pack.Operations {
+		op.ID.CUID = c.cuid
+	}
+	req := model.NewPushPullMessage(0, &model.Client{CUID: c.cuid, Collection: c.coll}, pack)
+	before := m.sys.DB.Dump()
+	var resp *model.PushPullMessage
+	var err error
+	if !callWithDeadline(func() {
+		ctx, cancel := gocontext.WithCancel(gocontext.Background())
+		defer cancel()
+		b, _ := proto.Marshal(req)
+		var in model.PushPullMessage
+		proto.Unmarshal(b, &in)
+		resp, err = m.sys.Svc().ProcessPushPull(ctx, &in)
+	}) {
+		exitWith(viol("C16:request-never-answered:usedid", "request %s never returned", a))
+	}
+	m.drain()
+	refused := err != nil
+	if resp != nil {
+		for _, pk := range resp.PushPullPacks {
+			if pk.GetPushPullPackOption().HasErrorBit() {
+				refused = true
+			}
+		}
+	}
+	m.last = fmt.Sprintf("usedid %s refused=%v", a.K, refused)
+	if !refused {
+		return viol("C13:entry-with-used-datatype-id-accepted:"+a.K, "%s: the request names the unused key %q and carries the id %s of the datatype stored under key %q: it was not refused", a, a.T, victim.duid, victim.key)
+	}
+	if after := m.sys.DB.Dump(); after != before {
+		return viol("C13:refused-entry-changed-store:used-id:"+a.K, "%s: refused, but stored data changed; first difference at %s", a, firstDiff(after, before))
+	}
+	return nil
+}
+
+// ghostRequest: client c was removed by the reset of its collection. K == "stay": its next request, still naming that
+// collection, is not served (it is no longer registered) and changes nothing. K == "rejoin": it registers in the other
+// collection (its id is free again), after which a request naming the old collection is refused without changing anything
+// and a request naming its new collection is served.
+func (m *e2Machine) ghostRequest(c *e2client, a pt.Action) *pt.Violation {
+	d := c.dts[a.T]
+	other := ""
+	for _, coll := range m.p.Colls {
+		if coll != c.coll {
+			other = coll
+		}
+	}
+	send := func(coll string, packs ...*model.PushPullPack) (resp *model.PushPullMessage, err error) {
+		req := model.NewPushPullMessage(0, &model.Client{CUID: c.cuid, Collection: coll}, packs...)
+		if !callWithDeadline(func() {
+			ctx, cancel := gocontext.WithCancel(gocontext.Background())
+			defer cancel()
+			b, _ := proto.Marshal(req)
+			var in model.PushPullMessage
+			proto.Unmarshal(b, &in)
+			resp, err = m.sys.Svc().ProcessPushPull(ctx, &in)
+		}) {
+			exitWith(viol("C16:request-never-answered:ghost", "request %s of a client removed by a reset never returned", a))
+		}
+		m.drain()
+		return
+	}
+	if a.K == "rejoin" {
+		var err error
+		if !callWithDeadline(func() {
+			ctx, cancel := gocontext.WithCancel(gocontext.Background())
+			defer cancel()
+			_, err = m.sys.Svc().ProcessClient(ctx, model.NewClientMessage(&model.Client{CUID: c.cuid, Alias: c.h.Name, Collection: other, SyncType: model.SyncType_MANUALLY}))
+		}) {
+			exitWith(viol("C16:request-never-answered:ghost", "registration %s never returned", a))
+		}
+		m.drain()
+		if err != nil {
+			return viol("C17:reset-did-not-free-the-client", "%s: after ResetCollection(%s) removed the client, registering it in %q was refused: %v", a, c.coll, other, err)
+		}
+	}
+	before := m.sys.DB.Dump()
+	_, err := send(c.coll, d.rep.dt.CreatePushPullPack())
+	m.last = fmt.Sprintf("ghost %s err=%v", a.K, err != nil)
+	if err == nil {
+		if a.K == "rejoin" {
+			return viol("C17:foreign-collection-accepted:after-reset", "%s: the client is registered in %q now, its request naming %q was served", a, other, c.coll)
+		}
+		return viol("C17:client-removed-by-reset-still-served", "%s: ResetCollection(%s) removed the client, yet its next request was served without a new registration", a, c.coll)
+	}
+	if after := m.sys.DB.Dump(); after != before {
+		return viol("C17:refused-request-after-reset-changed-store", "%s: refused (%v) but stored data changed; first difference at %s", a, err, firstDiff(after, before))
+	}
+	if a.K == "rejoin" {
+		if _, err := send(other); err != nil {
+			return viol("C17:client-refused-in-its-own-collection", "%s: the client registered in %q after the reset of %q, a request naming %q was refused: %v", a, other, c.coll, other, err)
+		}
 	}
 	return nil
 }
